@@ -264,7 +264,7 @@ def cases(tier: str, seed: int):
     for order in itertools.permutations(RP.REQUIRED):
         for first in SEATS:
             P.append((B[:2], dict(order=list(order), first=first), 'order'))
-    for extras in ('none', 'before', 'between', 'after', 'table', 'repeat', 'all'):
+    for extras in ('none', 'before', 'between', 'after', 'table', 'table-first', 'table-middle', 'repeat', 'all'):
         for eol in ('\n', '\r\n'):
             for first in SEATS:
                 P.append((B[:2], dict(extras=extras, eol=eol, first=first, header='export'), 'extras'))
